@@ -71,6 +71,9 @@ func (w *World) xmlTagOf(pkgShort, typeName, field string) (string, bool) {
 
 func checkC12(cx *Ctx, r *Report) {
 	w, fx := cx.W, cx.Fx
+	// storage is asked with the request's context (which carries the issuer / tenant in effect): keys, providers and
+	// users are those of this request
+	cx.checkStorageContext(r)
 	// request data must not be shared between requests through recycled buffers (R-POOL, see C15)
 	cx.checkPoolEscape(r)
 	r.Clauses = []string{
